@@ -147,6 +147,7 @@ def _conservation(chk, repo, folder):
         chk.check(len(sz) == 1, "R4", f"{SV}:SdoServer.segmented_upload | size = len(sent data)", f.loc(), f"no `size = len({dvar})`")
         stores = [n for n in own_nodes(f.node) if isinstance(n, ast.Assign) and isinstance(n.targets[0], ast.Subscript) and dotted(n.targets[0].value) == "response"
                   and isinstance(n.targets[0].slice, ast.Slice)]
+        chk.check(len(stores) == 1, "R4", f"{SV}:SdoServer.segmented_upload | segment carries the data", f.loc(), f"{len(stores)} data stores into the response")
         for s_ in stores:
             chk.check(src(s_.value) == dvar, "R4", f"{SV}:SdoServer.segmented_upload | data store", f.loc(s_), f"stores {src(s_.value)}, expected {dvar}")
         # last-segment predicate
@@ -177,13 +178,18 @@ def _conservation(chk, repo, folder):
     if dd is not None and isinstance(dd, ast.Call):
         kw = {k.arg: folder.try_fold(k.value, ff.scope, None) for k in dd.keywords}
         chk.check(kw.get("check_readable") is True, "R4", f"{SV}:SdoServer.init_upload | readable check requested", f.loc(), "write-only entries would be served")
-    for c in [c for c in find_calls(f.node, "struct.pack_into") if folder.try_fold(c.args[0], ff.scope, None) == "<L"]:
+    ann = [c for c in find_calls(f.node, "struct.pack_into") if folder.try_fold(c.args[0], ff.scope, None) == "<L"]
+    chk.check(len(ann) == 1, "R4", f"{SV}:SdoServer.init_upload | segmented upload announces its size", f.loc(), f"{len(ann)} stores of the '<L' size field: the true size is not announced")
+    for c in ann:
         chk.check(folder.try_fold(c.args[2], ff.scope, None) == 4 and src(c.args[3]) == "size", "R4", f"{SV}:SdoServer.init_upload | announced size", f.loc(c), src(c))
+        g = [(ff.norm(e, subst=False), p) for e, p in ff.facts_at(ff.stmt_of(c))]
+        chk.check(any("size" in t for t, p in g), "R4", f"{SV}:SdoServer.init_upload | size announced on the segmented branch", f.loc(c), f"{g}")
     bs = [s_ for s_ in attr_stores(f.node, "_buffer")]
     for s_ in bs:
         chk.check(src(s_.value) in ("bytearray(data)",), "R4", f"{SV}:SdoServer.init_upload | buffer is a copy of the value", f.loc(s_), f"_buffer = {src(s_.value)}")
     ex = [n for n in own_nodes(f.node) if isinstance(n, ast.Assign) and isinstance(n.targets[0], ast.Subscript) and dotted(n.targets[0].value) == "response"
           and isinstance(n.targets[0].slice, ast.Slice)]
+    chk.check(len(ex) == 1, "R4", f"{SV}:SdoServer.init_upload | expedited response carries the data", f.loc(), f"{len(ex)} stores of the value into response[4:4+size]")
     for s_ in ex:
         chk.check(src(s_.value) == "data" and ff.is_form(s_.targets[0].slice.upper, "4 + size") and src(s_.targets[0].slice.lower) == "4", "R4",
                   f"{SV}:SdoServer.init_upload | expedited data", f.loc(s_), src(s_))
@@ -197,6 +203,7 @@ def _conservation(chk, repo, folder):
             and ff.is_form(a.slice.upper, "8 - ((command >> 1) & 0x7)", subst=True)
         chk.check(ok, "R4", f"{SV}:SdoServer.segmented_download | appended bytes", f.loc(c), f"appends {src(a)}; CiA 301: request[1:8 - n] with n = bits 3..1")
     sd = find_calls(f.node, "self._node.set_data")
+    chk.check(len(sd) == 1, "R4", f"{SV}:SdoServer.segmented_download | completed download is committed", f.loc(), f"{len(sd)} set_data calls: the transferred bytes are never stored")
     for c in sd:
         g = [(ff.norm(e, subst=False), p) for e, p in ff.facts_at(ff.stmt_of(c))]
         chk.check((ff.canon("command & NO_MORE_DATA"), True) in g and [src(a) for a in c.args] == ["self._index", "self._subindex", "self._buffer"], "R4",
@@ -205,6 +212,13 @@ def _conservation(chk, repo, folder):
                   f"{SV}:SdoServer.segmented_download | last data appended before commit", f.loc(c), "set_data runs before the last segment's bytes are appended")
     f = repo.func(SV, "SdoServer.init_download", "C02.R4")
     ff = ff_for(chk, f, "C02.R4")
+    exp_tests = [n for n in ff.cfg.nodes if n.kind == "test" and "EXPEDITED" in src(n.ast)]
+    chk.check(len(exp_tests) == 1 and ff.is_form(exp_tests[0].ast, "command & EXPEDITED"), "R4", f"{SV}:SdoServer.init_download | expedited bit selects the path", f.loc(),
+              f"{[src(t.ast) for t in exp_tests]}; expected `command & EXPEDITED` (bit 1 of the request)")
+    sizes = [n for n in own_nodes(f.node) if isinstance(n, ast.Assign) and src(n.targets[0]) == "size" and any(p and ff.norm(e, subst=False) == ff.canon("command & EXPEDITED") for e, p in ff.facts_at(n))]
+    chk.check(len(sizes) == 2, "R4", f"{SV}:SdoServer.init_download | expedited size for sized and unsized requests", f.loc(), f"{[src(s_) for s_ in sizes]}")
+    commits = find_calls(f.node, "self._node.set_data")
+    chk.check(len(commits) == 1, "R4", f"{SV}:SdoServer.init_download | expedited download is committed", f.loc(), f"{len(commits)} set_data calls")
     for c in find_calls(f.node, "self._node.set_data"):
         a = c.args[2] if len(c.args) > 2 else None
         ok = a is not None and isinstance(a, ast.Subscript) and isinstance(a.slice, ast.Slice) and src(a.slice.lower) == "4" and ff.is_form(a.slice.upper, "4 + size")
@@ -212,6 +226,8 @@ def _conservation(chk, repo, folder):
     for s_ in [n for n in own_nodes(f.node) if isinstance(n, ast.Assign) and src(n.targets[0]) == "size"]:
         g = [(ff.norm(e, subst=False), p) for e, p in ff.facts_at(s_)]
         if (ff.canon("command & EXPEDITED"), True) in g:
+            sized = [t for t, p in g if "SIZE_SPECIFIED" in t or t == ff.canon("command & 1")]
+            chk.check(bool(sized), "R4", f"{SV}:SdoServer.init_download | size source selected by the s bit ({src(s_)[:30]})", f.loc(s_), f"{g}")
             if (ff.canon("command & SIZE_SPECIFIED"), True) in g:
                 chk.check(ff.is_form(s_.value, "4 - ((command >> 2) & 0x3)"), "R4", f"{SV}:SdoServer.init_download | expedited size (sized)", f.loc(s_), src(s_))
             else:
